@@ -14,7 +14,7 @@ use midnight_proofs::{
         commitment::{Guard, PolynomialCommitmentScheme},
         kzg::{
             params::{ParamsKZG, ParamsVerifierKZG},
-            verif_hooks::{verif_sets_prover, verif_sets_verifier},
+            verif_hooks::{verif_prepare_trace_on, verif_sets_prover, verif_sets_verifier, verif_take_prepare_trace},
             KZGCommitmentScheme,
         },
         Coeff, CommitmentLabel, Error, EvaluationDomain, Polynomial, ProverQuery, VerifierQuery,
@@ -168,6 +168,23 @@ pub struct VerifierOut {
     pub panicked: Option<String>,
     pub ch: Vec<Fq>,
     pub ev: String,
+    /// the intermediate scalars of `multi_prepare` (trace hook), when it reached `v`
+    pub trace: Option<String>,
+}
+
+fn fq_of(b: &[u8]) -> Fq {
+    use ff::PrimeField;
+    let mut r = <Fq as PrimeField>::Repr::default();
+    r.as_mut().copy_from_slice(b);
+    Fq::from_repr(r).unwrap()
+}
+
+fn dotted(v: &[Vec<u8>]) -> String {
+    if v.is_empty() {
+        "-".into()
+    } else {
+        v.iter().map(|b| fe_hex(&fq_of(b))).collect::<Vec<_>>().join(".")
+    }
 }
 
 fn base_id(b: &G1Projective, coms: &[G1Projective], f: &G1Projective, pi: &G1Projective) -> String {
@@ -202,6 +219,7 @@ pub fn build_vqs<'a>(coms: &'a [G1Projective], vqs: &[VQ]) -> Vec<VerifierQuery<
 /// tampered) group elements inside `proof`, used only to name the bases of the deferred MSM.
 pub fn run_verifier(st: &Setup, coms: &[G1Projective], vqs: &[VQ], proof: &[u8], f: &G1Projective, pi: &G1Projective, salt: u32) -> VerifierOut {
     let _ = tr::take();
+    verif_prepare_trace_on(true);
     let r = catch(|| {
         let mut t = RecT::init_from_bytes(proof);
         t.common(&salt).unwrap();
@@ -225,12 +243,25 @@ pub fn run_verifier(st: &Setup, coms: &[G1Projective], vqs: &[VQ], proof: &[u8],
         }
     });
     let (ch, ev) = tr::take();
+    let traces = verif_take_prepare_trace();
+    verif_prepare_trace_on(false);
+    let trace = match traces.as_slice() {
+        [t] if !t.v.is_empty() => Some(format!(
+            "px1={} qes={} r={} fe={} v={}",
+            dotted(&t.powers_x1),
+            if t.q_eval_sets.is_empty() { "-".to_string() } else { t.q_eval_sets.iter().map(|s| dotted(s)).collect::<Vec<_>>().join("|") },
+            dotted(&t.r_evals),
+            fe_hex(&fq_of(&t.f_eval)),
+            fe_hex(&fq_of(&t.v))
+        )),
+        _ => None,
+    };
     match r {
-        Ok(Ok((l, r, acc))) => VerifierOut { ans: format!("L={l} R={r} acc={}", acc as u8), accepted: acc, panicked: None, ch, ev },
-        Ok(Err(Error::DuplicatedQuery)) => VerifierOut { ans: "err dup".into(), accepted: false, panicked: None, ch, ev },
-        Ok(Err(Error::SamplingError)) => VerifierOut { ans: "err sampling".into(), accepted: false, panicked: None, ch, ev },
-        Ok(Err(Error::OpeningError)) => VerifierOut { ans: "err opening".into(), accepted: false, panicked: None, ch, ev },
-        Err(m) => VerifierOut { ans: "panic".into(), accepted: false, panicked: Some(m), ch, ev },
+        Ok(Ok((l, r, acc))) => VerifierOut { ans: format!("L={l} R={r} acc={}", acc as u8), accepted: acc, panicked: None, ch, ev, trace },
+        Ok(Err(Error::DuplicatedQuery)) => VerifierOut { ans: "err dup".into(), accepted: false, panicked: None, ch, ev, trace },
+        Ok(Err(Error::SamplingError)) => VerifierOut { ans: "err sampling".into(), accepted: false, panicked: None, ch, ev, trace },
+        Ok(Err(Error::OpeningError)) => VerifierOut { ans: "err opening".into(), accepted: false, panicked: None, ch, ev, trace },
+        Err(m) => VerifierOut { ans: "panic".into(), accepted: false, panicked: Some(m), ch, ev, trace },
     }
 }
 
@@ -420,6 +451,10 @@ pub fn prove_base(ctx: &mut Ctx, b: &Base, salt: u32, nforeign: usize, rng: &mut
             };
             let ans = format!("ev={} f={} qe={} pi={}", out.ev, affine_str(&parts.f), hexl(&parts.qe), affine_str(&parts.pi));
             ctx.case(&kind, true, &line, &ans);
+            // a repeated (polynomial reference, point) pair must be refused
+            if (0..built.pq.len()).any(|i| (0..i).any(|j| built.pq[i] == built.pq[j])) {
+                crate::ofail(ctx, &format!("dup-accepted:prover:{}", shape_class(b)), "multi_open accepts a query list that repeats a (polynomial, point) pair", json!({"shape": shape_of(b), "line": line}));
+            }
             ctx.count("prover:ok");
             ctx.count(&format!("prover:nsets={}", parts.qe.len()));
             // commitment table
@@ -611,9 +646,28 @@ pub fn verify_case(ctx: &mut Ctx, b: &Base, p: &Proved, vqs: &[VQ], t: &Tamper, 
     let line = format!("verify K={} T={},{} V={} Q={} X={}", hexl(&p.dlogs), fe_hex(&df), fe_hex(&dp), view, fmt_vqs(vqs), hexl(&out.ch));
     let ans = if out.panicked.is_some() { "panic".to_string() } else { format!("ev={} {}", out.ev, out.ans) };
     ctx.case(&format!("verify-{what}"), true, &line, &ans);
+    // the intermediate scalars of multi_prepare (q_eval_sets, r_evals in fold order, f_eval, v)
+    // against the model, for runs with an untouched proof or a tampered q evaluation
+    if matches!(t, Tamper::None | Tamper::Q(..)) {
+        if let Some(tr) = &out.trace {
+            let line = format!("vtrace V={} Q={} X={}", view, fmt_vqs(vqs), hexl(&out.ch));
+            ctx.case(&format!("vtrace-{what}"), true, &line, tr);
+        }
+    }
     let all_true = vqs.iter().all(|q| claim_true(&p.table, q));
     let verdict = if out.panicked.is_some() { "panic" } else if out.accepted { "accept" } else if out.ans.starts_with("err") { "error" } else { "reject" };
     ctx.count(&format!("verdict:{what}:{verdict}"));
+    // a repeated (commitment reference, point) pair must be refused with Err(DuplicatedQuery),
+    // identical evaluations or not
+    let repeated = (0..vqs.len()).any(|i| (0..i).any(|j| vqs[i].r == vqs[j].r && vqs[i].pt == vqs[j].pt));
+    if repeated {
+        ctx.count(&format!("dup:{what}:{}", if out.ans == "err dup" { "refused" } else { "NOT-refused" }));
+        if out.ans != "err dup" {
+            crate::ofail(ctx, &format!("dup-accepted:verifier:{}:{}", what, shape_class(b)), "multi_prepare does not refuse a query list that repeats a (commitment, point) pair", json!({"shape": shape_of(b), "corruption": what, "queries": fmt_vqs(vqs), "result": out.ans, "prove_salt": p.salt}));
+        }
+    } else if out.ans == "err dup" {
+        crate::ofail(ctx, &format!("dup-spurious:verifier:{}:{}", what, shape_class(b)), "multi_prepare refuses a duplicate-free query list as duplicated", json!({"shape": shape_of(b), "corruption": what, "queries": fmt_vqs(vqs), "prove_salt": p.salt}));
+    }
     let detail = || json!({"shape": shape_of(b), "corruption": what, "tamper": t.fmt(), "queries": fmt_vqs(vqs), "k": b.k, "result": out.ans, "panic": out.panicked, "prove_salt": p.salt});
     if honest {
         if !out.accepted {
